@@ -48,12 +48,15 @@ def get_shape_memo():
 
 def set_shape_memo(single_memo, variadic_memo, pytree_memo, arg_memo) -> None:
     if _has_shape_memo():
-        _shape_storage.memo_stack[-1] = (
-            single_memo,
-            variadic_memo,
-            pytree_memo,
-            arg_memo,
-        )
+        # Restore in-place, rather than replacing the dictionaries on the stack. Other
+        # code may be holding references to the current memos (e.g. the `memos` returned
+        # from `push_shape_memo`, used for error messages; or the `pytree_memo` of an
+        # enclosing `PyTree` check), and these must not go stale.
+        new_memos = (single_memo, variadic_memo, pytree_memo, arg_memo)
+        for memo, new_memo in zip(_shape_storage.memo_stack[-1], new_memos):
+            if memo is not new_memo:
+                memo.clear()
+                memo.update(new_memo)
 
 
 def push_shape_memo(arguments: dict[str, Any]):
